@@ -238,3 +238,11 @@ func init() {
 		mutant{Name: "frame-debug-data-dropped-when-the-call-exits", Prop: "C19", File: "interp/debugger.go", Old: "\t\tdbg.exitGoRoutine(f.debug.g)\n\t\tdbg.events(&DebugEvent{dbg, DebugExitGoRoutine, f})\n\t}\n", New: "\t\tdbg.exitGoRoutine(f.debug.g)\n\t\tdbg.events(&DebugEvent{dbg, DebugExitGoRoutine, f})\n\t}\n\tif f.debug.kind != frameRoot {\n\t\tf.debug = nil\n\t}\n", Rule: "R19.12", Key: "package/frame-debug-data-never-dropped"},
 	)
 }
+
+func init() {
+	addMutants(
+		// round-6 seed C10-4 (deferred calls of a cancelled frame dropped), for C06 and C10
+		mutant{Name: "deferred-calls-of-a-cancelled-frame-dropped", Prop: "C06", File: "interp/run.go", Old: "\t\tdeferred := f.deferred\n\t\tf.mutex.Unlock()\n", New: "\t\tdeferred := f.deferred\n\t\tif f.runid() != n.interp.runid() {\n\t\t\tdeferred = nil\n\t\t}\n\t\tf.mutex.Unlock()\n", Rule: "R06.2", Key: "runCfg/consumer/list-not-replaced"},
+		mutant{Name: "deferred-calls-of-a-cancelled-frame-dropped-c10", Prop: "C10", File: "interp/run.go", Old: "\t\tdeferred := f.deferred\n\t\tf.mutex.Unlock()\n", New: "\t\tdeferred := f.deferred\n\t\tif f.runid() != n.interp.runid() {\n\t\t\tdeferred = nil\n\t\t}\n\t\tf.mutex.Unlock()\n", Rule: "R10.6", Key: "runCfg/consumer/list-not-replaced"},
+	)
+}
